@@ -65,10 +65,8 @@ Definition fill_to (width : option N) (s : str) : str :=
   | Some w => if len s <=? w then s ++ repeat_byte ch_space (N.to_nat (w - len s)) else s
   end.
 
-Definition fmt_duration_with (prec width : option N) (p : N) : fout :=
-  let sig := match prec with Some s => s | None => fmt_default_sig_figs end in
-  let i0 := scale_index p in
-  let i := if (i0 =? 0) && (fmt_pico_as_nano_above <? sig) then 1 else i0 in
+(** The body of [fmt] once the scale [i] is chosen. *)
+Definition fmt_duration_at (sig : N) (width : option N) (p i : N) : fout :=
   let multiple := pow10_sat128 sig in
   fbind day_picos (fun day =>
   fbind (scale_picos i) (fun unit =>
@@ -83,6 +81,15 @@ Definition fmt_duration_with (prec width : option N) (p : N) : fout :=
     if f64_exact_guard n sig then
       fbind (format_f64_str (f64_display_exact n sig) sig) finish
     else FInexact))))).
+
+Definition sig_of (prec : option N) : N :=
+  match prec with Some s => s | None => fmt_default_sig_figs end.
+
+Definition fmt_duration_with (prec width : option N) (p : N) : fout :=
+  let sig := sig_of prec in
+  let i0 := scale_index p in
+  let i := if (i0 =? 0) && (fmt_pico_as_nano_above <? sig) then 1 else i0 in
+  fmt_duration_at sig width p i.
 
 (** [FineDuration { picos }.to_string()]. *)
 Definition fmt_duration (p : N) : fout := fmt_duration_with None None p.
